@@ -37,6 +37,7 @@ GLOBAL_SLOTS = [
     ("uaddr", [("unnamed_addr", "unnamed_addr ", "unnamed_addr "), ("local_unnamed_addr", "local_unnamed_addr ", "local_unnamed_addr ")]),
     ("as", [("addrspace", "addrspace(3) ", "addrspace(3) ")]),
     ("extinit", [("externally_initialized", "externally_initialized ", "externally_initialized ")]),
+    ("mut", [("constant", "constant", "constant i32 0")]),            # `constant` instead of `global` (crossed with every other clause)
     ("section", [("section", ', section "s"', 'section "s"')]),
     ("partition", [("partition", ', partition "p"', 'partition "p"')]),
     ("comdat", [("comdat", ", comdat", "comdat"), ("comdat-other", ", comdat($c)", "comdat($c)")]),
@@ -49,10 +50,10 @@ def global_entries():
     out = []
     for label, sel in _pairs(GLOBAL_SLOTS):
         g = lambda s: _get(sel, s)
-        text = ("$c = comdat any\n\n$g = comdat any\n\n@g = %s%s%s%s%s%s%s%sglobal i32 0%s%s%s%s%s\n" %
-                (g("linkage"), g("preempt"), g("vis"), g("dll"), g("tls"), g("uaddr"), g("as"), g("extinit"), g("section"), g("partition"), g("comdat"), g("align"), g("md"))) + MD
+        text = ("$c = comdat any\n\n$g = comdat any\n\n@g = %s%s%s%s%s%s%s%s%s i32 0%s%s%s%s%s\n" %
+                (g("linkage"), g("preempt"), g("vis"), g("dll"), g("tls"), g("uaddr"), g("as"), g("extinit"), g("mut") or "global", g("section"), g("partition"), g("comdat"), g("align"), g("md"))) + MD
         out.append(("clause.global." + label, text, _frags(sel)))
-        if "linkage" not in sel and "comdat" not in sel:
+        if "linkage" not in sel and "comdat" not in sel and "mut" not in sel:
             # the same clauses on a DECLARATION (no initialiser)
             for ext in ("external", "extern_weak"):
                 text = ("@g = %s %s%s%s%s%s%s%sglobal i32%s%s%s%s\n" %
